@@ -320,6 +320,7 @@ func (c *Context) verifyFunc(fc *FuncContract) (res *FuncResult) {
 	}
 	entry := st.clone()
 	e.entryArgs, e.entryState = args, entry
+	e.hist = histHome{pkg: sp, bind: bind}
 	vals, out, reach := e.execFunc(fn, args, bind, st, "true", true)
 	e.exitVals, e.exitState, e.exitReach = vals, out, reach
 	coverFacts := len(e.facts) // the vacuity check looks at what the body assumes, not at postconditions assumed after being asserted
